@@ -114,7 +114,7 @@ func (g *progGen) e(d int) string {
 	if d >= g.maxD {
 		return g.atom()
 	}
-	w := append([]int{}, g.w[:38]...)
+	w := append([]int{}, g.w[:42]...)
 	if len(g.fns) == 0 {
 		w[8], w[10], w[11], w[13] = 0, 0, 0, 0
 	}
@@ -123,6 +123,9 @@ func (g *progGen) e(d int) string {
 	}
 	if len(g.hashes) == 0 {
 		w[22] = 0
+	}
+	if proggenNoClock {
+		w[41] = 0
 	}
 	switch g.r.Weighted(w) {
 	case 0:
@@ -259,6 +262,23 @@ func (g *progGen) e(d int) string {
 	case 31:
 		n := g.r.Pick(localNames)
 		return fmt.Sprintf("(let [%s (hash a: 1)] (hset %s b: %s) (hget %s b:))", n, n, g.e(d+1), n)
+	case 38:
+		// an array index given as a list is evaluated by aget itself (re-entering the VM)
+		return fmt.Sprintf("(aget [%s 7 9] (quote (cond (< %s 0) 1 0)))", g.e(d+1), g.e(d+1))
+	case 39:
+		// colon access: the builder evaluates the collection and the default itself
+		if g.r.Chance(0.5) {
+			return fmt.Sprintf("(:a (hash a: %s))", g.e(d+1))
+		}
+		return fmt.Sprintf("(:zz (hash a: 1) %s)", g.e(d+1))
+	case 40:
+		// map over a list applies the function element by element from Go
+		n := g.r.Pick(localNames)
+		body := g.withLocal(n, func() string { return g.e(d + 1) })
+		return fmt.Sprintf("(first (map (fn [%s] %s) (list %s %s)))", n, body, g.e(d+1), g.e(d+1))
+	case 41:
+		// timeit applies a thunk a given number of times from Go
+		return fmt.Sprintf("(begin (timeit (fn [] %s) %d) %s)", g.e(d+1), g.r.Range(1, 3), g.e(d+1))
 	}
 	return g.atom()
 }
@@ -774,6 +794,16 @@ func genProgram(r *kernel.RNG, maxForms int, noFail, decls bool) []vmForm {
 	forms, _ := genProgramFiles(r, maxForms, noFail, decls)
 	return forms
 }
+
+// genProgramNoClock: as genProgram, without the forms whose printed output depends on the wall clock (timeit)
+func genProgramNoClock(r *kernel.RNG, maxForms int, noFail, decls bool) []vmForm {
+	proggenNoClock = true
+	defer func() { proggenNoClock = false }()
+	forms, _ := genProgramFiles(r, maxForms, noFail, decls)
+	return forms
+}
+
+var proggenNoClock bool
 
 func genProgramFiles(r *kernel.RNG, maxForms int, noFail, decls bool) ([]vmForm, map[string]string) {
 	g := newProgGen(r)
